@@ -195,6 +195,20 @@ func checkLayouts(c *core.Ctx, ls []Layout) {
 			if len(e.doc) > 0 || len(e.comment) > 0 {
 				nontrivial = true
 			}
+			// a caller may modify what it got (Context.Doc strips the name from doc[0] in place): a later
+			// call must still answer from the source
+			for i := range doc {
+				doc[i] = "scribbled"
+			}
+			for k := range tags {
+				tags[k] = append(tags[k], "scribbled")
+			}
+			for i := range comment {
+				comment[i] = "scribbled"
+			}
+			c.Trans(2)
+			tags, doc = p.Doc(obj.Pos())
+			comment = p.Comment(obj.Pos())
 			if !eqLines(doc, e.doc) {
 				class := ""
 				if len(e.doc) == 0 && len(doc) == 1 && strings.HasPrefix(doc[0], "trail of ") {
@@ -443,7 +457,7 @@ func replay(c *core.Ctx, raw json.RawMessage) {
 func init() {
 	core.Register(&core.Prop{
 		ID: "C12", Level: "model_checking", Run: run, Replay: replay,
-		Rule: "layouts: every assignment of (doc form in {none, line, two lines, block, detached, with tag lines} x trailing comment yes/no) to 3 (thorough: 4 for two kinds) consecutive declarations, for 11 declaration kinds (ungrouped/grouped types, struct fields, multi-name fields, grouped/ungrouped consts, vars, and multi-line declarations whose trailing comment sits on the closing line: fields of struct type, grouped/ungrouped struct types, grouped vars with multi-line values); one source file per layout loaded by the real loader; Doc/tags/Comment of every declared object vs the harness' own knowledge of what it wrote. Tag extraction: every single line <=5 (6) over an 8-symbol alphabet (also with custom markers), every pair of lines <=3. Non-trivial = layouts with at least one doc or trailing comment / inputs with at least one tag; states = distinct layout classes / (tags, other lines) counts",
+		Rule: "layouts: every assignment of (doc form in {none, line, two lines, block, detached, with tag lines} x trailing comment yes/no) to 3 (thorough: 4 for two kinds) consecutive declarations, for 11 declaration kinds (ungrouped/grouped types, struct fields, multi-name fields, grouped/ungrouped consts, vars, and multi-line declarations whose trailing comment sits on the closing line: fields of struct type, grouped/ungrouped struct types, grouped vars with multi-line values); one source file per layout loaded by the real loader; Doc/tags/Comment of every declared object vs the harness' own knowledge of what it wrote (asked twice, the first answer overwritten by the caller in between). Tag extraction: every single line <=5 (6) over an 8-symbol alphabet (also with custom markers), every pair of lines <=3. Non-trivial = layouts with at least one doc or trailing comment / inputs with at least one tag; states = distinct layout classes / (tags, other lines) counts",
 		Assumptions: []string{
 			"doc lines starting with 'go:' or with leading/trailing blanks are outside the alphabet",
 			"other (non-tag) lines are compared modulo surrounding spaces",
